@@ -153,6 +153,15 @@ func init() {
 		if c.isTrue() {
 			return nil
 		}
+		if ex.sh.ignoreAsserts {
+			// this check borrows another property's harness for its paths only (lock discipline): the
+			// harness's own assertions are decided by that property's check, here they are assumed
+			if c.isFalse() || !ex.sol.Feasible(c) {
+				panic(pathAbort{"assume-false"})
+			}
+			ex.assume(c)
+			return nil
+		}
 		ex.res.assertQ++
 		nc := Not(c)
 		if nc.isFalse() || !ex.sol.Feasible(nc) {
